@@ -108,7 +108,7 @@ def domainHandler (is16 : Bool) (fields : List String) : String :=
         (if goLexemesOnly U (m % 2 = 1) (m / 2 % 2 = 1) src then "in " else "out ") ++
           (if agree16 (scan (mk .xgo) src) (scan (mk .go) src) then "agree" else "differ")
       else
-        (if sharedLexemesOnly U src then "in " else "out ") ++
+        (if sharedLexemesOnly U (m % 2 = 1) (m / 2 % 2 = 1) src then "in " else "out ") ++
           (if agree32 (scan (mk .tpl) src) (scan (mk .xgo) src) then "agree" else "differ")
     | _, _, _, _ => "bad-input"
   | _ => "bad-input"
